@@ -10,6 +10,7 @@ import (
 	"fmt"
 	"math/big"
 	"os"
+	"runtime"
 	"strings"
 )
 
@@ -32,6 +33,7 @@ func LoadModel(path string) error {
 	model = map[string]*big.Int{}
 	obsLog = nil
 	Failed = nil
+	allocLimit = 0
 	Reached = nil
 	if path == "" {
 		return nil
@@ -167,7 +169,29 @@ func Param(name string, def int) int {
 	return def
 }
 
-func AllocLimit(n int) {}
+var (
+	allocLimit    int
+	allocBaseline uint64
+)
+
+// AllocLimit bounds what the code under test may allocate in one request, in elements.
+// Natively the total bytes allocated after this call are compared with n (so n must
+// leave room for the harness's own small allocations; use >= 1<<20).
+func AllocLimit(n int) {
+	var ms runtime.MemStats
+	runtime.ReadMemStats(&ms)
+	allocLimit, allocBaseline = n, ms.TotalAlloc
+}
+
+// AllocExceeded (native only) reports whether the harness allocated far more than its limit.
+func AllocExceeded() bool {
+	if allocLimit == 0 {
+		return false
+	}
+	var ms runtime.MemStats
+	runtime.ReadMemStats(&ms)
+	return ms.TotalAlloc-allocBaseline > uint64(allocLimit)
+}
 
 func StepLimit(n int) {}
 
